@@ -115,7 +115,9 @@ func genCase(r *fw.Rand) fw.Case {
 			// points older than the retention period may be dropped
 			var pts []string
 			for k, n := 0, 2+r.Intn(5); k < n; k++ {
-				pts = append(pts, fmt.Sprintf("now%+d:%d", offs[r.Intn(len(offs))]-int64(r.Intn(1000)), c08.SeriesHash(r.Intn(8))))
+				// (never exactly an offset: the writer reads the clock itself, a moment after the
+				// case's `now`, so a point exactly one retention period old is already too old for it)
+				pts = append(pts, fmt.Sprintf("now%+d:%d", offs[r.Intn(len(offs))]-int64(1+r.Intn(1000)), c08.SeriesHash(r.Intn(8))))
 			}
 			ops = append(ops, fmt.Sprintf("map now+0 db0 rp%d %s", r.Intn(nrp), strings.Join(pts, ",")))
 		default:
